@@ -285,10 +285,10 @@ Proof.
   - now rewrite b_find_put_other.
 Qed.
 
-Lemma total_put' : forall t h b ko n,
-  total (buckets (put t h b ko n)) = total (buckets t) - Z.of_nat (length (bk t h)) + Z.of_nat (length b).
+Lemma total_put' : forall t h b,
+  total (b_put K V (buckets t) h b) = total (buckets t) - Z.of_nat (length (bk t h)) + Z.of_nat (length b).
 Proof.
-  intros. unfold put; simpl. rewrite total_put. unfold bk, blen. now destruct (b_find K V (buckets t) h).
+  intros. rewrite total_put. unfold bk, blen. now destruct (b_find K V (buckets t) h).
 Qed.
 
 (* normal forms of HashSet / HashDelete in terms of the bucket of the key's code *)
@@ -360,4 +360,809 @@ Proof.
       * now apply IH.
 Qed.
 
+(* ------------------------------------------------------------------ *)
+(* the invariant tying the three pieces of bookkeeping together *)
+Definition bucket_ok (h : Z) (b : bucket) : Prop :=
+  nodupk (map fst b) /\ forall k v, In (k, v) b -> hcode k = h /\ good k.
+
+Record Inv (t : tbl) : Prop := {
+  inv_bk : forall h, bucket_ok h (bk t h);                 (* each bucket: keys of that code, once each *)
+  inv_nd : nodupk (korder t);                              (* KeyOrder has no key twice *)
+  inv_good : forall k, In k (korder t) -> good k;
+  inv_res : forall k, In k (korder t) -> getd t k <> None; (* every KeyOrder key is live *)
+  inv_rep : forall h k v, In (k, v) (bk t h) -> exists k', In k' (korder t) /\ keq k' k = true;
+                                                           (* every live key is in KeyOrder *)
+  inv_n : nkeys t = Z.of_nat (length (korder t));          (* NumKeys *)
+  inv_total : total (buckets t) = Z.of_nat (length (korder t)) }.
+
+Lemma inv_empty : Inv empty.
+Proof.
+  constructor; simpl; try reflexivity; try tauto.
+  intros h. unfold bk; simpl. split; [exact I|intros ? ? []].
+Qed.
+
+Lemma good_unwrap : forall k, ok k = true -> good (unwrap k).
+Proof. intros k H. split; [now apply unwrap_ok|apply unwrap_idem]. Qed.
+
+Lemma korder_present : forall t key, Inv t -> good key ->
+  existsb (fun x => keq x key) (korder t) = existsb (fun p => keq (fst p) key) (bk t (hcode key)).
+Proof.
+  intros t key HI [Hok Hfix].
+  destruct (existsb (fun p => keq (fst p) key) (bk t (hcode key))) eqn:Ex.
+  - rewrite existsb_s_get in Ex. destruct (s_get (bk t (hcode key)) key) eqn:G; [|discriminate].
+    apply s_get_some_in in G as (k1 & Hin & Hk1).
+    destruct (inv_rep t HI _ _ _ Hin) as (k' & Hk' & Hkk).
+    apply existsb_exists. exists k'. split; [assumption|]. eapply keq_trans; eauto.
+  - destruct (existsb (fun x => keq x key) (korder t)) eqn:Ey; [|reflexivity].
+    apply existsb_exists in Ey as (x & Hx & Hxk).
+    pose proof (inv_res t HI x Hx) as Hr. rewrite getd_bk in Hr.
+    destruct (inv_good t HI x Hx) as [Hokx _].
+    rewrite (hcode_compat x key Hokx Hok Hxk) in Hr.
+    rewrite (s_get_keq _ x key Hxk) in Hr.
+    rewrite existsb_s_get in Ex. destruct (s_get (bk t (hcode key)) key); [discriminate|congruence].
+Qed.
+
+Lemma getd_hset : forall t k0 v k', ok k0 = true -> good k' ->
+  getd (hset t k0 v) k' = if keq (unwrap k0) k' then Some v else getd t k'.
+Proof.
+  intros t k0 v k' Hok0 [Hok' _]. rewrite hset_eq. cbv zeta.
+  pose proof (good_unwrap k0 Hok0) as [Hokk _].
+  set (key := unwrap k0) in *. set (h := hcode key).
+  assert (Hne : hcode k' <> h -> keq key k' = false).
+  { intros Hne. destruct (keq key k') eqn:E; [|reflexivity].
+    exfalso. apply Hne. symmetry. now apply hcode_compat. }
+  destruct (existsb (fun p => keq (fst p) key) (bk t h)) eqn:Ex;
+    rewrite getd_bk, bk_put; destruct (Z.eqb_spec (hcode k') h) as [He|Hn].
+  - rewrite s_get_replace, Ex, getd_bk, He. reflexivity.
+  - rewrite (Hne Hn), getd_bk. reflexivity.
+  - rewrite s_get_append.
+    + now rewrite getd_bk, He.
+    + rewrite existsb_s_get in Ex. now destruct (s_get (bk t h) key).
+  - rewrite (Hne Hn), getd_bk. reflexivity.
+Qed.
+
+Lemma getd_hdel : forall t key k', Inv t -> good key -> good k' ->
+  getd (hdel t key) k' = if keq key k' then None else getd t k'.
+Proof.
+  intros t key k' HI [Hok _] [Hok' _]. rewrite hdel_eq. cbv zeta.
+  set (h := hcode key).
+  destruct (existsb (fun p => keq (fst p) key) (bk t h)) eqn:Ex.
+  - rewrite getd_bk, bk_put. destruct (Z.eqb_spec (hcode k') h) as [He|Hn].
+    + rewrite s_get_remove by apply (inv_bk t HI h). now rewrite getd_bk, He.
+    + destruct (keq key k') eqn:E; [|now rewrite getd_bk].
+      exfalso. apply Hn. symmetry. now apply hcode_compat.
+  - destruct (keq key k') eqn:E; [|reflexivity].
+    rewrite getd_bk, <- (hcode_compat key k' Hok Hok' E).
+    rewrite keq_sym in E. rewrite (s_get_keq _ k' key E).
+    rewrite existsb_s_get in Ex. fold h. now destruct (s_get (bk t h) key).
+Qed.
+
+Lemma in_replace : forall (arr : bucket) key (v : V) k v0,
+  In (k, v0) (map (fun p => if keq (fst p) key then (key, v) else p) arr) ->
+  In (k, v0) arr \/ (k = key /\ exists k1 v1, In (k1, v1) arr /\ keq k1 key = true).
+Proof.
+  intros arr key v k v0 H. apply in_map_iff in H as ([k1 v1] & Heq & Hin). simpl in Heq.
+  destruct (keq k1 key) eqn:E.
+  - inversion Heq; subst. right. split; [reflexivity|eauto].
+  - inversion Heq; subst. now left.
+Qed.
+
+Lemma map_fst_replace : forall (arr : bucket) key (v : V),
+  map fst (map (fun p => if keq (fst p) key then (key, v) else p) arr) =
+  map (fun k => if keq k key then key else k) (map fst arr).
+Proof.
+  intros. rewrite !map_map. apply map_ext. intros [k1 v1]; simpl. now destruct (keq k1 key).
+Qed.
+
+Theorem inv_hset : forall t k0 v, Inv t -> ok k0 = true -> Inv (hset t k0 v).
+Proof.
+  intros t k0 v HI Hok0.
+  pose proof (good_unwrap k0 Hok0) as Hgood.
+  pose proof (fun k' => getd_hset t k0 v k' Hok0) as Hget.
+  pose proof (korder_present t (unwrap k0) HI Hgood) as Hpres.
+  revert Hget. rewrite hset_eq. cbv zeta.
+  set (key := unwrap k0) in *. set (h := hcode key) in *. set (arr := bk t h) in *.
+  destruct (existsb (fun p => keq (fst p) key) arr) eqn:Ex; intros Hget.
+  - (* the key is present: its value is replaced in the bucket *)
+    constructor; simpl.
+    + intros h'. rewrite bk_put. destruct (Z.eqb_spec h' h) as [->|]; [|apply (inv_bk t HI)].
+      destruct (inv_bk t HI h) as [Hnd Hall]. split.
+      * rewrite map_fst_replace. apply nodupk_map; [|exact Hnd].
+        intros x. destruct (keq x key) eqn:E; [now rewrite keq_sym|apply keq_refl].
+      * intros k v1 Hin. apply (in_replace arr key v) in Hin as [Hin|[-> _]]; [now apply (Hall k v1)|].
+        split; [reflexivity|exact Hgood].
+    + apply (inv_nd t HI).
+    + apply (inv_good t HI).
+    + intros k Hk. rewrite Hget by now apply (inv_good t HI).
+      destruct (keq key k); [discriminate|now apply (inv_res t HI)].
+    + intros h' k v1. rewrite bk_put. destruct (Z.eqb_spec h' h) as [->|]; [|exact (inv_rep t HI h' k v1)].
+      intros Hin. apply (in_replace arr key v) in Hin as [Hin|[-> (k1 & v2 & Hin & Hk1)]].
+      * now apply (inv_rep t HI h k v1).
+      * destruct (inv_rep t HI h _ _ Hin) as (k' & Hk' & Hkk). exists k'. split; [assumption|].
+        eapply keq_trans; eauto.
+    + apply (inv_n t HI).
+    + rewrite total_put'. fold arr. rewrite map_length. rewrite (inv_total t HI). lia.
+  - (* the key is new: appended to the bucket and to KeyOrder, NumKeys + 1 *)
+    assert (Hfresh : forall x, In x (korder t) -> keq x key = false) by (now apply existsb_false_all).
+    constructor; simpl.
+    + intros h'. rewrite bk_put. destruct (Z.eqb_spec h' h) as [->|]; [|apply (inv_bk t HI)].
+      destruct (inv_bk t HI h) as [Hnd Hall]. fold arr in Hnd, Hall. split.
+      * rewrite map_app. simpl. apply nodupk_app_one; [exact Hnd|].
+        intros x Hx. apply in_map_iff in Hx as ([k1 v1] & <- & Hin). simpl.
+        destruct (keq k1 key) eqn:E; [|reflexivity].
+        assert (existsb (fun p => keq (fst p) key) arr = true) by (apply existsb_exists; exists (k1, v1); auto).
+        congruence.
+      * intros k v1 Hin. apply in_app_or in Hin as [Hin|[Heq|[]]]; [now apply (Hall k v1)|].
+        inversion Heq; subst. split; [reflexivity|exact Hgood].
+    + apply nodupk_app_one; [apply (inv_nd t HI)|exact Hfresh].
+    + intros k Hk. apply in_app_or in Hk as [Hk|[<-|[]]]; [now apply (inv_good t HI)|exact Hgood].
+    + intros k Hk. apply in_app_or in Hk as [Hk|[<-|[]]].
+      * rewrite Hget by now apply (inv_good t HI).
+        destruct (keq key k); [discriminate|now apply (inv_res t HI)].
+      * rewrite Hget by exact Hgood. now rewrite keq_refl.
+    + intros h' k v1. rewrite bk_put. destruct (Z.eqb_spec h' h) as [->|].
+      * intros Hin. apply in_app_or in Hin as [Hin|[Heq|[]]].
+        -- destruct (inv_rep t HI h _ _ Hin) as (k' & Hk' & Hkk). exists k'. split; [apply in_or_app; now left|assumption].
+        -- inversion Heq; subst. exists key. split; [apply in_or_app; right; now left|apply keq_refl].
+      * intros Hin. destruct (inv_rep t HI h' _ _ Hin) as (k' & Hk' & Hkk).
+        exists k'. split; [apply in_or_app; now left|assumption].
+    + rewrite app_length, (inv_n t HI). simpl. lia.
+    + rewrite total_put'. fold arr. rewrite !app_length, (inv_total t HI). simpl. lia.
+Qed.
+
+Lemma present_good : forall t key, Inv t -> ok key = true ->
+  existsb (fun p => keq (fst p) key) (bk t (hcode key)) = true -> good key.
+Proof.
+  intros t key HI Hok Ex. apply existsb_exists in Ex as ([k1 v1] & Hin & Hk). simpl in Hk.
+  destruct (inv_bk t HI (hcode key)) as [_ Hall]. destruct (Hall k1 v1 Hin) as [_ [_ Hfix]].
+  split; [assumption|]. eapply keq_fixed; eauto.
+Qed.
+
+Theorem inv_hdel : forall t key, Inv t -> ok key = true -> Inv (hdel t key).
+Proof.
+  intros t key HI Hok. pose proof (present_good t key HI Hok) as Hpg.
+  pose proof (fun k' Hg => getd_hdel t key k' HI Hg) as Hget.
+  revert Hget. rewrite hdel_eq. cbv zeta.
+  set (h := hcode key) in *. set (arr := bk t h) in *.
+  destruct (existsb (fun p => keq (fst p) key) arr) eqn:Ex; intros Hget; [|exact HI].
+  specialize (Hpg eq_refl). specialize (Hget).
+  pose proof (korder_present t key HI Hpg) as Hpres. fold h arr in Hpres. rewrite Ex in Hpres.
+  destruct (inv_bk t HI h) as [Hnd Hall]. fold arr in Hnd, Hall.
+  assert (Hrem : forall k v1, In (k, v1) (remove_first (fun p => keq (fst p) key) arr) -> keq k key = false).
+  { intros k v1 Hin. apply (nodupk_removed_false (map fst arr) key k Hnd).
+    rewrite <- remove_first_map_fst with (f := fun y => keq y key).
+    change k with (fst (k, v1)). now apply in_map. }
+  constructor; simpl.
+  - intros h'. rewrite bk_put. destruct (Z.eqb_spec h' h) as [->|]; [|apply (inv_bk t HI)]. split.
+    + rewrite remove_first_map_fst with (f := fun y => keq y key). now apply nodupk_remove_first.
+    + intros k v1 Hin. apply (Hall k v1). eapply remove_first_in; eauto.
+  - apply nodupk_remove_first, (inv_nd t HI).
+  - intros k Hk. apply (inv_good t HI). eapply remove_first_in; eauto.
+  - intros k Hk.
+    pose proof (nodupk_removed_false _ key k (inv_nd t HI) Hk) as Hkk.
+    apply remove_first_in in Hk.
+    rewrite (Hget k Hpg (inv_good t HI k Hk)). rewrite keq_sym, Hkk. now apply (inv_res t HI).
+  - intros h' k v1. rewrite bk_put. destruct (Z.eqb_spec h' h) as [->|Hne]; intros Hin.
+    + pose proof (Hrem k v1 Hin) as Hkk. apply remove_first_in in Hin.
+      destruct (inv_rep t HI h k v1 Hin) as (k' & Hk' & Hk'k). exists k'. split; [|assumption].
+      apply remove_first_keep; [assumption|]. now rewrite (keq_congr_l k' k key Hk'k).
+    + destruct (inv_rep t HI h' k v1 Hin) as (k' & Hk' & Hk'k). exists k'. split; [|assumption].
+      apply remove_first_keep; [assumption|].
+      destruct (keq k' key) eqn:E; [|reflexivity]. exfalso. apply Hne.
+      destruct (inv_bk t HI h') as [_ Hall']. destruct (Hall' k v1 Hin) as [Hc [Hokk _]].
+      destruct (inv_good t HI k' Hk') as [Hok' _]. destruct Hpg as [Hokey _].
+      rewrite <- Hc. rewrite <- (hcode_compat k' k Hok' Hokk Hk'k). now apply hcode_compat.
+  - rewrite remove_first_length by assumption. rewrite (inv_n t HI). reflexivity.
+  - rewrite total_put'. fold arr. rewrite remove_first_length by assumption.
+    rewrite remove_first_length by assumption. rewrite (inv_total t HI). lia.
+Qed.
+
+(* ------------------------------------------------------------------ *)
+(* every history: the invariant holds in every reachable state *)
+Notation op := (op K V).
+Definition op_ok (o : op) : Prop := ok (op_key K V o) = true.
+(* the delete does not name a one-element array (HashDelete does not unwrap it) *)
+Definition op_plain (o : op) : Prop := match o with ODel k => unwrap k = k | OSet _ _ => True end.
+
+Theorem inv_step : forall t o, Inv t -> op_ok o -> Inv (step t o).
+Proof. intros t [k v|k] HI Hok; simpl; [now apply inv_hset|now apply inv_hdel]. Qed.
+
+Lemma inv_fold : forall ops t, Inv t -> Forall op_ok ops -> Inv (fold_left step ops t).
+Proof.
+  induction ops as [|o r IH]; simpl; intros t HI Hall; [assumption|].
+  inversion Hall; subst. apply IH; [now apply inv_step|assumption].
+Qed.
+
+Theorem reachable_inv : forall ops, Forall op_ok ops -> Inv (run ops).
+Proof. intros. apply inv_fold; [apply inv_empty|assumption]. Qed.
+
+(* ------------------------------------------------------------------ *)
+(* refinement of the state-changing operations *)
+Lemma get_getd_good : forall t k, unwrap k = k -> get t k = getd t k.
+Proof. intros t k H. unfold hash_get. now rewrite H. Qed.
+
+Lemma abs_def : forall t, abs t = fm (get t) (korder t).
+Proof. reflexivity. Qed.
+
+Lemma abs_fm : forall t, Inv t -> abs t = fm (getd t) (korder t).
+Proof.
+  intros t HI. rewrite abs_def. apply fm_ext. intros x Hx.
+  apply get_getd_good. now destruct (inv_good t HI x Hx).
+Qed.
+
+Lemma korder_hset : forall t k0 v,
+  korder (hset t k0 v) =
+  if existsb (fun p => keq (fst p) (unwrap k0)) (bk t (hcode (unwrap k0))) then korder t else korder t ++ [unwrap k0].
+Proof. intros. rewrite hset_eq. cbv zeta. now destruct (existsb _ _). Qed.
+
+Lemma korder_hdel : forall t key,
+  korder (hdel t key) =
+  if existsb (fun p => keq (fst p) key) (bk t (hcode key)) then remove_first (fun k => keq k key) (korder t) else korder t.
+Proof. intros. rewrite hdel_eq. cbv zeta. now destruct (existsb _ _). Qed.
+
+Theorem abs_hset : forall t k0 v, Inv t -> ok k0 = true ->
+  abs (hset t k0 v) = s_set (abs t) (unwrap k0) v.
+Proof.
+  intros t k0 v HI Hok0.
+  pose proof (good_unwrap k0 Hok0) as Hgood.
+  rewrite (abs_fm _ (inv_hset t k0 v HI Hok0)), (abs_fm t HI), korder_hset.
+  rewrite <- (korder_present t (unwrap k0) HI Hgood).
+  set (key := unwrap k0) in *.
+  destruct (existsb (fun x => keq x key) (korder t)) eqn:Ex.
+  - rewrite s_set_fm_present; [|apply (inv_nd t HI)|apply (inv_res t HI)|assumption].
+    apply fm_ext. intros x Hx. rewrite getd_hset by (try assumption; now apply (inv_good t HI)).
+    fold key. now rewrite keq_sym.
+  - rewrite s_set_fm_absent by assumption. rewrite fm_app. f_equal.
+    + apply fm_ext. intros x Hx. rewrite getd_hset by (try assumption; now apply (inv_good t HI)).
+      fold key. rewrite keq_sym. now rewrite (existsb_false_all _ _ Ex x Hx).
+    + simpl. rewrite getd_hset by assumption. fold key. now rewrite keq_refl.
+Qed.
+
+Theorem abs_hdel : forall t key, Inv t -> good key -> abs (hdel t key) = s_del (abs t) key.
+Proof.
+  intros t key HI Hgood. destruct Hgood as [Hok Hfix].
+  rewrite (abs_fm _ (inv_hdel t key HI Hok)), (abs_fm t HI), korder_hdel.
+  rewrite <- (korder_present t key HI (conj Hok Hfix)).
+  rewrite s_del_fm; [|apply (inv_nd t HI)|apply (inv_res t HI)].
+  destruct (existsb (fun x => keq x key) (korder t)) eqn:Ex.
+  - apply fm_ext. intros x Hx. apply remove_first_in in Hx.
+    rewrite getd_hdel; [|assumption|now split|now apply (inv_good t HI)]. now rewrite keq_sym.
+  - rewrite remove_first_none by assumption. apply fm_ext. intros x Hx.
+    rewrite getd_hdel; [|assumption|now split|now apply (inv_good t HI)].
+    now rewrite keq_sym.
+Qed.
+
+(* HashDelete of a one-element array [k] (not unwrapped) never finds anything *)
+Theorem hdel_wrapped_noop : forall t key, Inv t -> ok key = true -> unwrap key <> key -> hdel t key = t.
+Proof.
+  intros t key HI Hok Hne. rewrite hdel_eq. cbv zeta.
+  destruct (existsb (fun p => keq (fst p) key) (bk t (hcode key))) eqn:Ex; [|reflexivity].
+  exfalso. apply Hne. now destruct (present_good t key HI Hok Ex).
+Qed.
+
+Theorem step_refines : forall t o, Inv t -> op_ok o -> op_plain o -> abs (step t o) = s_step (abs t) o.
+Proof.
+  intros t [k v|k] HI Hok Hpl; simpl in *.
+  - now apply abs_hset.
+  - rewrite Hpl. apply abs_hdel; [assumption|now split].
+Qed.
+
+Lemma fold_refines : forall ops t s, Inv t -> abs t = s -> Forall op_ok ops -> Forall op_plain ops ->
+  abs (fold_left step ops t) = fold_left s_step ops s.
+Proof.
+  induction ops as [|o r IH]; simpl; intros t s HI Habs Hok Hpl; [assumption|].
+  inversion Hok; inversion Hpl; subst. apply IH; try assumption.
+  - now apply inv_step.
+  - now apply step_refines.
+Qed.
+
+Theorem history_refines : forall ops, Forall op_ok ops -> Forall op_plain ops -> abs (run ops) = s_run ops.
+Proof. intros. apply fold_refines; auto using inv_empty. Qed.
+
+(* deleting a key that is not there changes nothing at all *)
+Theorem missing_delete_noop : forall t key, getd t key = None -> hdel t key = t.
+Proof.
+  intros t key H. rewrite hdel_eq. cbv zeta. rewrite existsb_s_get. rewrite getd_bk in H. now rewrite H.
+Qed.
+
+(* ------------------------------------------------------------------ *)
+(* refinement of the observations *)
+Lemma getd_keq : forall t a b, ok a = true -> ok b = true -> keq a b = true -> getd t a = getd t b.
+Proof.
+  intros t a b Ha Hb H. rewrite !getd_bk. rewrite (hcode_compat a b Ha Hb H). now apply s_get_keq.
+Qed.
+
+Theorem getd_refines : forall t k, Inv t -> good k -> getd t k = s_get (abs t) k.
+Proof.
+  intros t k HI Hg. rewrite (abs_fm t HI). rewrite s_get_fm.
+  - rewrite (korder_present t k HI Hg). rewrite existsb_s_get, <- getd_bk. now destruct (getd t k).
+  - intros x Hx Hxk. apply getd_keq; try assumption; [now destruct (inv_good t HI x Hx)|now destruct Hg].
+Qed.
+
+Theorem get_refines : forall t k, Inv t -> ok k = true -> get t k = s_lookup K V keq unwrap (abs t) k.
+Proof. intros t k HI Hok. unfold hash_get, s_lookup. apply getd_refines; [assumption|now apply good_unwrap]. Qed.
+
+Lemma get_res : forall t, Inv t -> forall x, In x (korder t) -> get t x <> None.
+Proof.
+  intros t HI x Hx. rewrite get_getd_good; [now apply (inv_res t HI)|now destruct (inv_good t HI x Hx)].
+Qed.
+
+Lemma fm_length : forall f l, (forall x, In x l -> f x <> None) -> length (fm f l) = length l.
+Proof.
+  induction l as [|x r IH]; simpl; intros H; [reflexivity|].
+  destruct (f x) eqn:E; [|exfalso; now apply (H x (or_introl eq_refl))]. simpl. f_equal. apply IH. auto.
+Qed.
+
+Lemma fm_keys : forall f l, (forall x, In x l -> f x <> None) -> map fst (fm f l) = l.
+Proof.
+  induction l as [|x r IH]; simpl; intros H; [reflexivity|].
+  destruct (f x) eqn:E; [|exfalso; now apply (H x (or_introl eq_refl))]. simpl. f_equal. apply IH. auto.
+Qed.
+
+Definition at_pos (f : K -> option V) (l : list K) (n : nat) : option (K * V) :=
+  match nth_error l n with
+  | Some k => match f k with Some v => Some (k, v) | None => None end
+  | None => None
+  end.
+
+Lemma fm_nth : forall f l n, (forall x, In x l -> f x <> None) -> nth_error (fm f l) n = at_pos f l n.
+Proof.
+  induction l as [|x r IH]; intros n H; [now destruct n|].
+  simpl. destruct (f x) eqn:E; [|exfalso; now apply (H x (or_introl eq_refl))].
+  destruct n; unfold at_pos; simpl; [now rewrite E|]. apply IH. intros; apply H; now right.
+Qed.
+
+Lemma fr_nth : forall t l n, (forall x, In x l -> get t x <> None) ->
+  first_resolving K V keq hcode unwrap t (skipn n l) = at_pos (get t) l n.
+Proof.
+  intros t. induction l as [|x r IH]; intros n H; [now destruct n|].
+  destruct n; unfold at_pos; simpl.
+  - destruct (get t x) eqn:E; [reflexivity|exfalso; now apply (H x (or_introl eq_refl))].
+  - apply IH. intros; apply H; now right.
+Qed.
+
+Lemma at_pos_some : forall f l n, (forall x, In x l -> f x <> None) -> (n < length l)%nat ->
+  exists kv, at_pos f l n = Some kv.
+Proof.
+  intros f l n H Hn. unfold at_pos. destruct (nth_error l n) eqn:E.
+  - pose proof (H k (nth_error_In _ _ E)). destruct (f k); [eauto|congruence].
+  - apply nth_error_None in E. lia.
+Qed.
+
+Theorem len_refines : forall t, Inv t -> len K V t = s_len K V (abs t).
+Proof.
+  intros t HI. unfold len, count_keys, s_len. fold (total (buckets t)).
+  rewrite (inv_total t HI), (inv_n t HI), Z.eqb_refl. rewrite abs_def, fm_length; [reflexivity|now apply get_res].
+Qed.
+
+Theorem keys_refines : forall t, Inv t -> keys K V t = s_keys K V (abs t).
+Proof. intros t HI. unfold keys, s_keys. rewrite abs_def, fm_keys; [reflexivity|now apply get_res]. Qed.
+
+Lemma abs_length : forall t, Inv t -> length (abs t) = length (korder t).
+Proof. intros t HI. rewrite abs_def. apply fm_length. now apply get_res. Qed.
+
+Lemma pairi_in_range : forall t pos, Inv t -> 0 <= pos < Z.of_nat (length (korder t)) ->
+  hash_pairi K V keq hcode unwrap t pos = s_pair K V (abs t) pos.
+Proof.
+  intros t pos HI Hr. unfold hash_pairi, s_pair.
+  rewrite (inv_n t HI). destruct (Z.ltb_spec (Z.of_nat (length (korder t))) pos); [lia|].
+  destruct (Z.ltb_spec pos 0); [lia|].
+  rewrite fr_nth by now apply get_res. rewrite abs_def, fm_nth by now apply get_res.
+  destruct (at_pos_some (get t) (korder t) (Z.to_nat pos) (get_res t HI)) as (kv & ->); [lia|reflexivity].
+Qed.
+
+Lemma s_pair_beyond : forall t pos, Inv t -> Z.of_nat (length (korder t)) <= pos -> s_pair K V (abs t) pos = Err.
+Proof.
+  intros t pos HI Hr. unfold s_pair. destruct (Z.ltb_spec pos 0); [reflexivity|].
+  assert (nth_error (abs t) (Z.to_nat pos) = None) as -> by (apply nth_error_None; rewrite abs_length by assumption; lia).
+  reflexivity.
+Qed.
+
+Theorem hpair_refines : forall t pos, Inv t -> hpair K V keq hcode unwrap t pos = s_pair K V (abs t) pos.
+Proof.
+  intros t pos HI. unfold hpair.
+  destruct (Z.ltb_spec pos 0); simpl.
+  - unfold s_pair. destruct (Z.ltb_spec pos 0); [reflexivity|lia].
+  - destruct (Z.leb_spec (Z.of_nat (length (korder t))) pos).
+    + symmetry. now apply s_pair_beyond.
+    + apply pairi_in_range; [assumption|lia].
+Qed.
+
+Theorem range_pair_refines : forall t pos, Inv t -> range_pair K V keq hcode unwrap t pos = s_pair K V (abs t) pos.
+Proof.
+  intros t pos HI. unfold range_pair. fold (len K V t). rewrite (len_refines t HI). unfold s_len.
+  rewrite abs_length by assumption.
+  destruct (Z.ltb_spec pos 0).
+  - unfold s_pair. destruct (Z.ltb_spec pos 0); [reflexivity|lia].
+  - destruct (Z.leb_spec (Z.of_nat (length (korder t))) pos).
+    + symmetry. now apply s_pair_beyond.
+    + apply pairi_in_range; [assumption|lia].
+Qed.
+
+Theorem range_key_refines : forall t pos, Inv t -> range_key K V keq hcode unwrap t pos = s_range_key K V (abs t) pos.
+Proof. intros t pos HI. unfold range_key, s_range_key. now rewrite range_pair_refines. Qed.
+
+Lemma json_entries_all : forall t l, (forall x, In x l -> get t x <> None) ->
+  json_entries K V keq hcode unwrap t l = Some (fm (get t) l).
+Proof.
+  intros t. induction l as [|x r IH]; simpl; intros H; [reflexivity|].
+  destruct (get t x) eqn:E; [|exfalso; now apply (H x (or_introl eq_refl))].
+  rewrite IH by auto. reflexivity.
+Qed.
+
+Theorem json_refines : forall t, Inv t -> json_obs K V keq hcode unwrap t = s_json K V (abs t).
+Proof.
+  intros t HI. unfold json_obs, s_json. rewrite json_entries_all by now apply get_res.
+  rewrite <- abs_def. f_equal. f_equal. rewrite abs_def, fm_keys; [reflexivity|now apply get_res].
+Qed.
+
+(* the printed form: exact except for a hash emptied by deletions (the bucket map keeps
+   its empty buckets, SexpString then cuts off the opening brace) *)
+Theorem str_refines_partial : forall t, Inv t -> abs t <> [] \/ buckets t = [] ->
+  str_obs K V keq hcode unwrap t = s_str K V (abs t).
+Proof.
+  intros t HI Hc. unfold str_obs, s_str. fold (abs t). f_equal.
+  destruct (buckets t) eqn:Eb.
+  - (* no bucket: nothing resolves *)
+    assert (abs t = []) as ->; [|reflexivity].
+    rewrite abs_def. assert (korder t = []) as ->; [|reflexivity].
+    destruct (korder t) as [|x r] eqn:Ek; [reflexivity|]. exfalso.
+    apply (inv_res t HI x); [rewrite Ek; now left|]. unfold hash_get_default. now rewrite Eb.
+  - destruct (abs t); [|reflexivity]. destruct Hc as [Hc|Hc]; [now contradiction Hc|discriminate].
+Qed.
+
+Lemma collect_ok : forall (A : Type) (f : Z -> outcome A) (l : list A) i,
+  (forall j a, nth_error l j = Some a -> f (i + Z.of_nat j) = Ok a) -> collect f i (length l) = Ok l.
+Proof.
+  intros A f. induction l as [|a r IH]; intros i H; simpl; [reflexivity|].
+  pose proof (H 0%nat a eq_refl) as H0. simpl in H0. rewrite Z.add_0_r in H0. rewrite H0.
+  rewrite IH; [reflexivity|]. intros j b Hj.
+  replace (i + 1 + Z.of_nat j) with (i + Z.of_nat (S j)) by lia. now apply H.
+Qed.
+
+Lemma s_pair_nth : forall (s : spec) j a, nth_error s j = Some a -> s_pair K V s (Z.of_nat j) = Ok a.
+Proof.
+  intros s j a H. unfold s_pair. destruct (Z.ltb_spec (Z.of_nat j) 0); [lia|]. now rewrite Nat2Z.id, H.
+Qed.
+
+Theorem loop_macro_refines : forall t, Inv t -> loop_macro K V keq hcode unwrap t = s_loop K V (abs t).
+Proof.
+  intros t HI. unfold loop_macro, s_loop. rewrite (len_refines t HI). unfold s_len. rewrite Nat2Z.id.
+  apply collect_ok. intros j a Hj. simpl. rewrite hpair_refines by assumption. now apply s_pair_nth.
+Qed.
+
+Theorem loop_infix_refines : forall t, Inv t -> loop_infix K V keq hcode unwrap t = s_loop K V (abs t).
+Proof.
+  intros t HI. unfold loop_infix, s_loop. rewrite (len_refines t HI). unfold s_len. rewrite Nat2Z.id.
+  apply collect_ok. intros j a Hj. simpl. rewrite range_pair_refines by assumption. now apply s_pair_nth.
+Qed.
+
+(* ------------------------------------------------------------------ *)
+(* corollaries *)
+Theorem len_keys_agree : forall t, Inv t ->
+  len K V t = Ok (Z.of_nat (length (keys K V t))) /\ length (keys K V t) = length (abs t) /\ nkeys t = Z.of_nat (length (keys K V t)).
+Proof.
+  intros t HI. rewrite (len_refines t HI). unfold s_len, keys. rewrite abs_length by assumption.
+  repeat split. apply (inv_n t HI).
+Qed.
+
+Theorem hpair_total : forall t pos, Inv t -> 0 <= pos < Z.of_nat (length (keys K V t)) ->
+  exists kv, hpair K V keq hcode unwrap t pos = Ok kv /\ nth_error (abs t) (Z.to_nat pos) = Some kv.
+Proof.
+  intros t pos HI Hr. rewrite hpair_refines by assumption. unfold s_pair, keys in *.
+  destruct (Z.ltb_spec pos 0); [lia|].
+  destruct (nth_error (abs t) (Z.to_nat pos)) eqn:E; [eauto|].
+  apply nth_error_None in E. rewrite abs_length in E by assumption. lia.
+Qed.
+
+Lemma s_pair_no_crash : forall (s : spec) pos, s_pair K V s pos <> Crash.
+Proof. intros s pos. unfold s_pair. destruct (pos <? 0); [discriminate|]. now destruct (nth_error s (Z.to_nat pos)). Qed.
+
+Theorem no_internal_panic : forall t, Inv t ->
+  len K V t <> Crash /\ json_obs K V keq hcode unwrap t <> Crash /\
+  (forall pos, hpair K V keq hcode unwrap t pos <> Crash) /\
+  (forall pos, range_pair K V keq hcode unwrap t pos <> Crash) /\
+  (forall pos, range_key K V keq hcode unwrap t pos <> Crash).
+Proof.
+  intros t HI. repeat split.
+  - now rewrite len_refines.
+  - now rewrite json_refines.
+  - intros pos. rewrite hpair_refines by assumption. apply s_pair_no_crash.
+  - intros pos. rewrite range_pair_refines by assumption. apply s_pair_no_crash.
+  - intros pos. rewrite range_key_refines by assumption. unfold s_range_key.
+    pose proof (s_pair_no_crash (abs t) pos). now destruct (s_pair K V (abs t) pos).
+Qed.
+
+(* HashGetDefault (hget with a default) of a one-element array [k] never finds anything *)
+Theorem getd_wrapped_none : forall t key, Inv t -> ok key = true -> unwrap key <> key -> getd t key = None.
+Proof.
+  intros t key HI Hok Hne. destruct (getd t key) eqn:G; [|reflexivity]. exfalso. apply Hne.
+  rewrite getd_bk in G.
+  assert (existsb (fun p => keq (fst p) key) (bk t (hcode key)) = true) by (rewrite existsb_s_get; now rewrite G).
+  now destruct (present_good t key HI Hok H).
+Qed.
+
 End Generic.
+
+(* ================================================================== *)
+(* the concrete keys: Compare = 0 is an equivalence, the hash codes respect it *)
+
+Definition acanon (a : atom) : Z * Z * list Z :=
+  match a with AInt z | AChar z => (0, z, []) | ASym n => (1, n, []) | AStr s => (2, 0, s) end.
+Definition kcanon (k : key) : (Z * Z * list Z) + list (Z * Z * list Z) :=
+  match k with KAtom a => inl (acanon a) | KArr l => inr (map acanon l) end.
+
+Lemma zlist_eqb_eq : forall a b, zlist_eqb a b = true <-> a = b.
+Proof.
+  induction a as [|x a IH]; destruct b as [|y b]; simpl; split; intros H; try reflexivity; try discriminate.
+  - apply andb_true_iff in H as [H1 H2]. apply Z.eqb_eq in H1. apply IH in H2. now subst.
+  - inversion H; subst. rewrite Z.eqb_refl. simpl. now apply IH.
+Qed.
+
+Lemma aeq_canon : forall a b, aeq a b = true <-> acanon a = acanon b.
+Proof.
+  intros a b. destruct a, b; simpl; split; intros H; try discriminate;
+    try (apply Z.eqb_eq in H; now subst);
+    try (inversion H; subst; now apply Z.eqb_refl).
+  - apply zlist_eqb_eq in H. now subst.
+  - inversion H; subst. now apply zlist_eqb_eq.
+Qed.
+
+Lemma alist_eq_canon : forall a b, alist_eq a b = true <-> map acanon a = map acanon b.
+Proof.
+  induction a as [|x a IH]; destruct b as [|y b]; simpl; split; intros H; try reflexivity; try discriminate.
+  - apply andb_true_iff in H as [H1 H2]. apply aeq_canon in H1. apply IH in H2. now rewrite H1, H2.
+  - inversion H as [[H1 H2]]. apply aeq_canon in H1. apply IH in H2. now rewrite H1, H2.
+Qed.
+
+Lemma keq_canon : forall a b, keq a b = true <-> kcanon a = kcanon b.
+Proof.
+  intros [a|a] [b|b]; simpl; split; intros H; try discriminate.
+  - apply aeq_canon in H. now rewrite H.
+  - inversion H. now apply aeq_canon.
+  - apply alist_eq_canon in H. now rewrite H.
+  - inversion H. now apply alist_eq_canon.
+Qed.
+
+Lemma keq_refl : forall a, keq a a = true.
+Proof. intros. now apply keq_canon. Qed.
+
+Lemma keq_sym : forall a b, keq a b = keq b a.
+Proof.
+  intros a b. destruct (keq a b) eqn:E1, (keq b a) eqn:E2; try reflexivity.
+  - apply keq_canon in E1. symmetry in E1. apply keq_canon in E1. congruence.
+  - apply keq_canon in E2. symmetry in E2. apply keq_canon in E2. congruence.
+Qed.
+
+Lemma keq_trans : forall a b c, keq a b = true -> keq b c = true -> keq a c = true.
+Proof. intros a b c H1 H2. apply keq_canon in H1, H2. apply keq_canon. congruence. Qed.
+
+Lemma ahash_canon : forall a b, acanon a = acanon b -> ahash a = ahash b.
+Proof. intros a b H. destruct a, b; simpl in *; inversion H; subst; reflexivity. Qed.
+
+Lemma nochar_canon_eq : forall a b, existsb is_char a = false -> existsb is_char b = false ->
+  map acanon a = map acanon b -> a = b.
+Proof.
+  induction a as [|x a IH]; destruct b as [|y b]; simpl; intros Ha Hb H; try reflexivity; try discriminate.
+  apply orb_false_iff in Ha as [Hx Ha]. apply orb_false_iff in Hb as [Hy Hb].
+  inversion H as [[H1 H2]]. f_equal; [|now apply IH].
+  destruct x, y; simpl in *; try discriminate; inversion H1; subst; reflexivity.
+Qed.
+
+Lemma khash_compat : forall ah a b, key_ok a = true -> key_ok b = true -> keq a b = true -> khash ah a = khash ah b.
+Proof.
+  intros ah [a|a] [b|b] Ha Hb H; simpl in *; try discriminate.
+  - apply ahash_canon. now apply aeq_canon.
+  - f_equal. apply negb_true_iff in Ha, Hb. apply nochar_canon_eq; try assumption. now apply alist_eq_canon.
+Qed.
+
+Lemma unwrap_idem : forall a, unwrap (unwrap a) = unwrap a.
+Proof. intros [a|[|a [|b r]]]; reflexivity. Qed.
+
+Lemma unwrap_ok : forall a, key_ok a = true -> key_ok (unwrap a) = true.
+Proof. intros [a|[|a [|b r]]]; simpl; auto. Qed.
+
+Lemma keq_fixed : forall a b, keq a b = true -> unwrap a = a -> unwrap b = b.
+Proof.
+  intros [a|[|a [|a' ra]]] [b|[|b [|b' rb]]]; simpl; intros H Hf; try reflexivity; try discriminate.
+  rewrite andb_false_r in H. discriminate.
+Qed.
+
+(* the hash codes the code computes for atoms respect Compare = 0, whatever the strings are *)
+Theorem atom_hash_compat : forall a b, aeq a b = true -> ahash a = ahash b.
+Proof. intros a b H. apply ahash_canon. now apply aeq_canon. Qed.
+
+(* ------------------------------------------------------------------ *)
+(* instance of the generic development: arbitrary array hash [ah] *)
+Section Instance.
+Variable ah : list atom -> Z.
+
+Definition ZInv (t : ztbl) : Prop := Inv key Z keq (khash ah) unwrap key_ok t.
+Definition zop_ok (o : zop) : Prop := key_ok (op_key key Z o) = true.
+Definition zop_plain (o : zop) : Prop := match o with ODel k => unwrap k = k | OSet _ _ => True end.
+Definition zstep := step key Z keq (khash ah) unwrap.
+Definition zs_step := s_step key Z keq unwrap.
+Definition zabs := abs key Z keq (khash ah) unwrap.
+
+Ltac hyps := first [exact keq_refl | exact keq_sym | exact keq_trans | exact (khash_compat ah)
+                   | exact unwrap_idem | exact unwrap_ok | exact keq_fixed].
+
+Lemma zop_ok_eq : forall o, zop_ok o <-> op_ok key Z key_ok o.
+Proof. intros; reflexivity. Qed.
+Lemma zop_plain_eq : forall o, zop_plain o <-> op_plain key Z unwrap o.
+Proof. intros [k v|k]; reflexivity. Qed.
+
+Theorem z_inv_init : ZInv (empty key Z).
+Proof. apply inv_empty. Qed.
+
+Theorem z_inv_step : forall t o, ZInv t -> zop_ok o -> ZInv (zstep t o).
+Proof. intros t o. apply inv_step; hyps. Qed.
+
+Theorem z_reachable_inv : forall ops, Forall zop_ok ops -> ZInv (zrun ah ops).
+Proof. intros ops H. apply reachable_inv; try hyps. exact H. Qed.
+
+Theorem z_step_refines : forall t o, ZInv t -> zop_ok o -> zop_plain o -> zabs (zstep t o) = zs_step (zabs t) o.
+Proof. intros t o HI Hok Hpl. apply (step_refines key Z keq (khash ah) unwrap key_ok); try hyps; assumption. Qed.
+
+Theorem z_history_refines : forall ops, Forall zop_ok ops -> Forall zop_plain ops -> zabs (zrun ah ops) = zs_run ops.
+Proof.
+  intros ops Hok Hpl. apply (history_refines key Z keq (khash ah) unwrap key_ok); try hyps; assumption.
+Qed.
+
+Notation zget := (hash_get key Z keq (khash ah) unwrap).
+Notation zgetd := (hash_get_default key Z keq (khash ah)).
+Notation zhpair := (hpair key Z keq (khash ah) unwrap).
+Notation zrange_pair := (range_pair key Z keq (khash ah) unwrap).
+Notation zrange_key := (range_key key Z keq (khash ah) unwrap).
+Notation zjson := (json_obs key Z keq (khash ah) unwrap).
+Notation zstr := (str_obs key Z keq (khash ah) unwrap).
+Notation zloop_macro := (loop_macro key Z keq (khash ah) unwrap).
+Notation zloop_infix := (loop_infix key Z keq (khash ah) unwrap).
+Notation zlen := (len key Z).
+Notation zkeys := (keys key Z).
+Notation zs_lookup := (s_lookup key Z keq unwrap).
+
+Theorem z_get_refines : forall t k, ZInv t -> key_ok k = true -> zget t k = zs_lookup (zabs t) k.
+Proof. intros t k. apply get_refines; hyps. Qed.
+
+Theorem z_getd_refines : forall t k, ZInv t -> key_ok k = true -> unwrap k = k -> zgetd t k = zs_lookup (zabs t) k.
+Proof.
+  intros t k HI Hok Hfix. unfold s_lookup. rewrite Hfix.
+  apply (getd_refines key Z keq (khash ah) unwrap key_ok); try hyps; [assumption|now split].
+Qed.
+
+Theorem z_len_refines : forall t, ZInv t -> zlen t = s_len key Z (zabs t).
+Proof. intros t. apply len_refines. Qed.
+
+Theorem z_keys_refines : forall t, ZInv t -> zkeys t = s_keys key Z (zabs t).
+Proof. intros t. apply keys_refines. Qed.
+
+Theorem z_hpair_refines : forall t pos, ZInv t -> zhpair t pos = s_pair key Z (zabs t) pos.
+Proof. intros t pos. apply hpair_refines. Qed.
+
+Theorem z_range_pair_refines : forall t pos, ZInv t -> zrange_pair t pos = s_pair key Z (zabs t) pos.
+Proof. intros t pos. apply range_pair_refines. Qed.
+
+Theorem z_range_key_refines : forall t pos, ZInv t -> zrange_key t pos = s_range_key key Z (zabs t) pos.
+Proof. intros t pos. apply range_key_refines. Qed.
+
+Theorem z_json_refines : forall t, ZInv t -> zjson t = s_json key Z (zabs t).
+Proof. intros t. apply json_refines. Qed.
+
+Theorem z_str_refines_partial : forall t, ZInv t -> zabs t <> [] \/ buckets t = [] -> zstr t = s_str key Z (zabs t).
+Proof. intros t. apply str_refines_partial. Qed.
+
+Theorem z_loop_macro_refines : forall t, ZInv t -> zloop_macro t = s_loop key Z (zabs t).
+Proof. intros t. apply loop_macro_refines. Qed.
+
+Theorem z_loop_infix_refines : forall t, ZInv t -> zloop_infix t = s_loop key Z (zabs t).
+Proof. intros t. apply loop_infix_refines. Qed.
+
+Theorem z_len_keys_agree : forall t, ZInv t ->
+  zlen t = Ok (Z.of_nat (length (zkeys t))) /\ length (zkeys t) = length (zabs t) /\ nkeys t = Z.of_nat (length (zkeys t)).
+Proof. intros t. apply len_keys_agree. Qed.
+
+Theorem z_hpair_total : forall t pos, ZInv t -> 0 <= pos < Z.of_nat (length (zkeys t)) ->
+  exists kv, zhpair t pos = Ok kv /\ nth_error (zabs t) (Z.to_nat pos) = Some kv.
+Proof. intros t pos. apply hpair_total. Qed.
+
+Theorem z_no_internal_panic : forall t, ZInv t ->
+  zlen t <> Crash /\ zjson t <> Crash /\ (forall pos, zhpair t pos <> Crash) /\
+  (forall pos, zrange_pair t pos <> Crash) /\ (forall pos, zrange_key t pos <> Crash).
+Proof. intros t. apply no_internal_panic. Qed.
+
+Theorem z_missing_delete_noop : forall t k, zgetd t k = None -> zstep t (ODel k) = t.
+Proof. intros t k. apply missing_delete_noop. Qed.
+
+Theorem z_hdel_wrapped_noop : forall t k, ZInv t -> key_ok k = true -> unwrap k <> k -> zstep t (ODel k) = t.
+Proof. intros t k. apply (hdel_wrapped_noop key Z keq (khash ah) unwrap key_ok); hyps. Qed.
+
+Theorem z_getd_wrapped_none : forall t k, ZInv t -> key_ok k = true -> unwrap k <> k -> zgetd t k = None.
+Proof. intros t k. apply (getd_wrapped_none key Z keq (khash ah) unwrap key_ok); hyps. Qed.
+
+(* the master statement: after EVERY history of hset/hdel over hash-compatible keys in which no
+   hdel names a one-element array, every observation equals the one of the ordered map *)
+Theorem z_hash_is_ordered_map : forall ops, Forall zop_ok ops -> Forall zop_plain ops ->
+  let t := zrun ah ops in let s := zs_run ops in
+  ZInv t /\ zabs t = s /\
+  zlen t = s_len key Z s /\ zkeys t = s_keys key Z s /\
+  (forall k, key_ok k = true -> zget t k = zs_lookup s k) /\
+  (forall k, key_ok k = true -> unwrap k = k -> zgetd t k = zs_lookup s k) /\
+  (forall pos, zhpair t pos = s_pair key Z s pos) /\
+  (forall pos, zrange_pair t pos = s_pair key Z s pos) /\
+  (forall pos, zrange_key t pos = s_range_key key Z s pos) /\
+  zjson t = s_json key Z s /\ zloop_macro t = s_loop key Z s /\ zloop_infix t = s_loop key Z s /\
+  (s <> [] -> zstr t = s_str key Z s).
+Proof.
+  intros ops Hok Hpl t s.
+  pose proof (z_reachable_inv ops Hok) as HI. pose proof (z_history_refines ops Hok Hpl) as Habs.
+  fold t in HI, Habs. fold s in Habs. rewrite <- Habs.
+  refine (conj HI (conj eq_refl _)).
+  repeat match goal with |- _ /\ _ => split end; intros;
+    auto using z_len_refines, z_keys_refines, z_get_refines, z_getd_refines, z_hpair_refines,
+    z_range_pair_refines, z_range_key_refines, z_json_refines, z_loop_macro_refines, z_loop_infix_refines.
+  apply z_str_refines_partial; auto.
+Qed.
+
+(* ------------------------------------------------------------------ *)
+(* where the code deviates: concrete witnesses *)
+Definition k1 : key := KAtom (AInt 1).
+Definition k1w : key := KArr [AInt 1].
+
+(* (hset h 1 5) (hdel h 1): the content is empty but str cuts off the opening brace *)
+Theorem str_after_emptying_refuted :
+  let ops := [OSet k1 5; ODel k1] in
+  Forall zop_ok ops /\ Forall zop_plain ops /\ zs_run ops = [] /\
+  zstr (zrun ah ops) = ([], true) /\ s_str key Z (zs_run ops) = ([], false).
+Proof. cbv zeta. repeat split; repeat constructor. Qed.
+
+(* (hset h [1] 5) (hdel h [1]): the key stays; (hget h [1] d) gives the default although (hget h [1]) finds 5 *)
+Theorem wrapped_key_refuted :
+  let ops := [OSet k1w 5; ODel k1w] in
+  Forall zop_ok ops /\ zs_run ops = [] /\ zabs (zrun ah ops) = [(k1, 5)] /\
+  zget (zrun ah [OSet k1w 5]) k1w = Some 5 /\ zgetd (zrun ah [OSet k1w 5]) k1w = None.
+Proof.
+  cbv zeta. assert (Hok : Forall zop_ok [OSet k1w 5]) by (repeat constructor).
+  pose proof (z_reachable_inv _ Hok) as HI.
+  repeat split; try (repeat constructor; fail).
+  - change (zrun ah [OSet k1w 5; ODel k1w]) with (zstep (zrun ah [OSet k1w 5]) (ODel k1w)).
+    rewrite z_hdel_wrapped_noop; [reflexivity|exact HI|reflexivity|discriminate].
+  - apply z_getd_wrapped_none; [exact HI|reflexivity|discriminate].
+Qed.
+
+End Instance.
+
+(* arrays that compare equal but are hashed apart (an int and a char inside): after
+   (hset h [1 97] 1) (hset h [1 'a'] 2) (hdel h [1 'a']) the key list keeps the deleted
+   spelling, hpair at position 0 reaches the internal panic and json panics *)
+Definition kA : key := KArr [AInt 1; AInt 97].
+Definition kB : key := KArr [AInt 1; AChar 97].
+
+Theorem incompatible_array_hash_refuted : forall ah : list atom -> Z,
+  ah [AInt 1; AInt 97] <> ah [AInt 1; AChar 97] ->
+  let t := zrun ah [OSet kA 1; OSet kB 2; ODel kB] in
+  keq kA kB = true /\ keys key Z t = [kB] /\ hash_get key Z keq (khash ah) unwrap t kA = Some 1 /\
+  hpair key Z keq (khash ah) unwrap t 0 = Crash /\ json_obs key Z keq (khash ah) unwrap t = Crash.
+Proof.
+  intros ah Hne. cbv zeta.
+  assert (Hab : Z.eqb (ah [AInt 1; AInt 97]) (ah [AInt 1; AChar 97]) = false) by now apply Z.eqb_neq.
+  assert (Hba : Z.eqb (ah [AInt 1; AChar 97]) (ah [AInt 1; AInt 97]) = false) by (apply Z.eqb_neq; congruence).
+  unfold zrun, run, kA, kB, hash_get, hpair, json_obs, keys, hash_pairi.
+  unfold fold_left, step, hash_set, hash_delete, hash_get_default.
+  repeat (simpl; unfold hash_get, hash_get_default; rewrite ?Hab, ?Hba, ?Z.eqb_refl).
+  repeat split; reflexivity.
+Qed.
+
+(* names for the instantiated operations, used by the statements in Properties/C14.v *)
+Definition zget ah := hash_get key Z keq (khash ah) unwrap.          (* (hget h k) *)
+Definition zgetd ah := hash_get_default key Z keq (khash ah).        (* (hget h k default) *)
+Definition zhpair ah := hpair key Z keq (khash ah) unwrap.           (* (hpair h i) *)
+Definition zrange_pair ah := range_pair key Z keq (khash ah) unwrap. (* (__rangePair h i) *)
+Definition zrange_key ah := range_key key Z keq (khash ah) unwrap.   (* (__rangeKey h i) *)
+Definition zjson ah := json_obs key Z keq (khash ah) unwrap.         (* (json h) *)
+Definition zstr ah := str_obs key Z keq (khash ah) unwrap.           (* (str h) *)
+Definition zloop_macro ah := loop_macro key Z keq (khash ah) unwrap. (* (range k v h ..) *)
+Definition zloop_infix ah := loop_infix key Z keq (khash ah) unwrap. (* for k, v := range h *)
+Definition zlen : ztbl -> outcome Z := len key Z.                    (* (len h), (__rangeLen h) *)
+Definition zkeys : ztbl -> list key := keys key Z.                   (* (keys h) *)
+Definition zs_lookup := s_lookup key Z keq unwrap.
